@@ -139,12 +139,15 @@ fn run_ordered<P: ParallelIterator>(p: P) -> Vec<P::Item> {
 
 fn run_ordered_default<P: ParallelIterator>(p: P) -> Vec<P::Item> {
     let mut out: Vec<(usize, P::Item)> = Vec::new();
+    let positional = p.preserves_order();
     drive(p, |i, x| {
         out.push((i, x));
         false
     });
     // stable: values of one base item keep their production order
-    out.sort_by_key(|(i, _)| *i);
+    if positional {
+        out.sort_by_key(|(i, _)| *i);
+    }
     out.into_iter().map(|(_, x)| x).collect()
 }
 
@@ -159,6 +162,12 @@ pub trait ParallelIterator: Sized + Send {
     #[doc(hidden)]
     fn ordered_vec(self) -> Vec<Self::Item> {
         run_ordered_default(self)
+    }
+    /// False below a `par_bridge()`: upstream hands the items of a bridged iterator to whichever
+    /// worker asks next and keeps no positions, so `collect` sees them in completion order.
+    #[doc(hidden)]
+    fn preserves_order(&self) -> bool {
+        true
     }
 
     fn map<F, R>(self, f: F) -> Map<Self, F>
@@ -491,6 +500,9 @@ where
     fn take_base(&mut self) -> Vec<P::Base> {
         self.p.take_base()
     }
+    fn preserves_order(&self) -> bool {
+        self.p.preserves_order()
+    }
     fn process(&self, idx: usize, b: P::Base, out: &mut dyn FnMut(R)) {
         self.p.process(idx, b, &mut |x| out((self.f)(x)))
     }
@@ -517,6 +529,9 @@ where
     fn take_base(&mut self) -> Vec<P::Base> {
         self.p.take_base()
     }
+    fn preserves_order(&self) -> bool {
+        self.p.preserves_order()
+    }
     fn process(&self, idx: usize, b: P::Base, out: &mut dyn FnMut(P::Item)) {
         self.p.process(idx, b, &mut |x| {
             (self.f)(&x);
@@ -539,6 +554,9 @@ where
     type Base = P::Base;
     fn take_base(&mut self) -> Vec<P::Base> {
         self.p.take_base()
+    }
+    fn preserves_order(&self) -> bool {
+        self.p.preserves_order()
     }
     fn process(&self, idx: usize, b: P::Base, out: &mut dyn FnMut(P::Item)) {
         self.p.process(idx, b, &mut |x| {
@@ -564,6 +582,9 @@ where
     fn take_base(&mut self) -> Vec<P::Base> {
         self.p.take_base()
     }
+    fn preserves_order(&self) -> bool {
+        self.p.preserves_order()
+    }
     fn process(&self, idx: usize, b: P::Base, out: &mut dyn FnMut(R)) {
         self.p.process(idx, b, &mut |x| {
             if let Some(r) = (self.f)(x) {
@@ -587,6 +608,9 @@ where
     type Base = P::Base;
     fn take_base(&mut self) -> Vec<P::Base> {
         self.p.take_base()
+    }
+    fn preserves_order(&self) -> bool {
+        self.p.preserves_order()
     }
     fn process(&self, idx: usize, b: P::Base, out: &mut dyn FnMut(Self::Item)) {
         self.p.process(idx, b, &mut |x| {
@@ -613,6 +637,9 @@ where
     type Base = P::Base;
     fn take_base(&mut self) -> Vec<P::Base> {
         self.p.take_base()
+    }
+    fn preserves_order(&self) -> bool {
+        self.p.preserves_order()
     }
     fn process(&self, idx: usize, b: P::Base, out: &mut dyn FnMut(SI::Item)) {
         self.p.process(idx, b, &mut |x| {
@@ -689,17 +716,42 @@ where
     }
 }
 
+/// `iter.par_bridge()`: a parallel iterator without positions (not indexed).
+pub struct Bridge<T> {
+    items: Vec<T>,
+}
+impl<T: Send> ParallelIterator for Bridge<T> {
+    type Item = T;
+    type Base = T;
+    fn take_base(&mut self) -> Vec<T> {
+        std::mem::take(&mut self.items)
+    }
+    fn process(&self, _idx: usize, b: T, out: &mut dyn FnMut(T)) {
+        out(b)
+    }
+    fn preserves_order(&self) -> bool {
+        false
+    }
+}
+impl<T> IntoIterator for Bridge<T> {
+    type Item = T;
+    type IntoIter = std::vec::IntoIter<T>;
+    fn into_iter(self) -> Self::IntoIter {
+        self.items.into_iter()
+    }
+}
+
 pub trait ParallelBridge: Sized {
     type Item: Send;
-    fn par_bridge(self) -> IterBase<Self::Item>;
+    fn par_bridge(self) -> Bridge<Self::Item>;
 }
 impl<T: Iterator + Send> ParallelBridge for T
 where
     T::Item: Send,
 {
     type Item = T::Item;
-    fn par_bridge(self) -> IterBase<T::Item> {
-        IterBase { items: self.collect() }
+    fn par_bridge(self) -> Bridge<T::Item> {
+        Bridge { items: self.collect() }
     }
 }
 
